@@ -167,13 +167,20 @@ def build(model, ranks=None, plain=False, default_resource_ids=False, share_id_o
                     quality_skill_mean_map={},
                     quality_skill_sd_map={},
                     # a worker who names another team than the one that lists him (BaseTeam keeps a team_id that is set already)
-                    **({"team_id": "".join(list(wj["team_id"]))} if wj.get("team_id") else {})
+                    **({"team_id": "".join(list(wj["team_id"]))} if wj.get("team_id") else {}),
+                    # a worker who still names the team he came from and is handed over with add_worker (which sets team_id)
+                    **({"team_id": "".join(list(wj["stale_team_id"]))} if (wj.get("stale_team_id") and mj.get("add_worker") and not wj.get("team_id")) else {})
                 )
             )
         if mj.get("ctor_targets"):
             # some targets handed to the constructor: registered on the team side only (task.allocated_team_list lacks the team)
             tm = M.btm.BaseTeam(name=mj.get("name", mj["id"]), ID=mj["id"], worker_list=workers,
                                 targeted_task_list=[tasks[k] for k in mj.get("targets", []) if k in mj["ctor_targets"]])
+        elif mj.get("add_worker"):
+            # the team is built empty and every worker joins it through the public add_worker
+            tm = M.btm.BaseTeam(name=mj.get("name", mj["id"]), ID=mj["id"])
+            for w_ in workers:
+                tm.add_worker(w_)
         else:
             tm = M.btm.BaseTeam(name=mj.get("name", mj["id"]), ID=mj["id"], worker_list=workers)
         teams.append(tm)
